@@ -4,37 +4,258 @@ from __future__ import annotations
 
 from functools import partial
 
-from . import e1
+from . import e1, e1b, e2, e2b, e3, e4, e5, e6, e7, e8, e9, e10
 
 TB_E1 = [
     "the rewriting normaliser of sv/algebra.py (confluence re-checked on all critical triples on every run)",
     "the interpretation table of sv/e1.py (what each DSL series denotes in terms of the exact solution)",
     "existence and uniqueness of the least-action solution of unitarity + elimination + gauge (literature)",
-    "ideal semantics of the DSL constructs (compilation: C09 rules; Cauchy product: C18 rules; Sylvester solver contract H0.T - T.H0 = Y: C16 rules; S/R complementarity: projection-pair rule)",
+    "ideal semantics of the DSL constructs: compilation (E9 rule), Cauchy product (E2 rules), Sylvester solver "
+    "contract H0.T - T.H0 = Y (E7 rules), S/R complementarity (projection-pair rule); these rules are part of the same check",
     "two-block mode: the exact Hermitian part W of U' is block diagonal (even powers of a block-off-diagonal generator)",
+    "numpy / scipy / sympy operators mean what their documentation says",
 ]
 
 main_e1 = partial(e1.rule_e1, programs=("main",))
 nh_e1 = partial(e1.rule_e1, programs=("nonhermitian",))
+wf_main = partial(e2.rule_wellfounded, programs=("main",))
+wf_nh = partial(e2.rule_wellfounded, programs=("nonhermitian",))
+wf_all = partial(e2.rule_wellfounded, programs=("main", "nonhermitian"))
+tv_shipped = partial(e9.rule_translation, which=("main", "nonhermitian"))
 
 PROPS: dict[str, dict] = {}
 
 
 def prop(pid, **kw):
+    kw.setdefault("assumptions", [])
+    kw["assumptions"] = kw["assumptions"] + [
+        "floating-point rounding, KPM convergence and sympy simplification are not analysed",
+        "third-party operators (numpy, scipy, sympy) behave as documented",
+    ]
     PROPS[pid] = kw
 
 
 prop(
-    "C01",
-    level="proof",
-    rules=[main_e1],
-    trusted_base=TB_E1,
+    "C01", level="proof", trusted_base=TB_E1, selftest=["algorithms", "block_diagonalization"],
+    rules=[main_e1, wf_main, e1b.rule_projection_pairs, e1b.rule_scope_flags, e7.rule_diagonal_solver,
+           e2.rule_product_by_order, e2.rule_adjoint_fill],
     explanation=(
-        "Every `with` block of algorithms.py::main is read from the current source and its defining "
-        "equation is discharged as a polynomial identity in a free *-algebra (atoms H_0, H'_S, H'_R, W, V; "
-        "opaque selected-part operator S) in the three flag modes general/commuting/two-block. "
-        "An obligation is one (mode, series, branch) identity; discharged means its normal form is 0 "
-        "(or a non-zero multiple of the elimination condition for the recurrence that imposes it)."
-    ),
-    assumptions=["floating-point rounding is not analysed", "see trusted_base"],
+        "Every `with` block of algorithms.py::main is read from the current source and its defining equation is "
+        "discharged as a polynomial identity in a free *-algebra (atoms H_0, H'_S, H'_R, W, V; opaque selected-part "
+        "operator S) in the three flag modes general / commuting / two-block; one obligation = one (mode, series, branch) "
+        "identity, discharged when its normal form is 0 (or a non-zero multiple of the elimination condition for the "
+        "recurrence that imposes it). Further obligations tie the ideal semantics to the code: complementary diag/offdiag "
+        "masks, flag meaning, orientation and zero-guard of every branch of the diagonal Sylvester solver, the Cauchy "
+        "product's index arithmetic and the adjoint fills."),
 )
+
+prop(
+    "C02", level="proof", trusted_base=TB_E1, selftest=["algorithms", "series"],
+    rules=[main_e1, e2.rule_product_by_order, e2.rule_adjoint_fill, e2.rule_cauchy_wiring],
+    explanation=(
+        "Unitarity (1+U'†)(1+U') = (1+U')(1+U'†) = 1, adj(U) = U†, Hermiticity of U†HU and of every series/product "
+        "carrying a hermitian/antihermitian marker are obligations of the E1 certificate of `main`; the Hermitian "
+        "half-sum multiplicity table of product_by_order (12 environments x all loop-body paths) and the index form of "
+        "every adjoint fill (hand-written and generated) are decided from series.py / algorithm_parsing.py."),
+)
+
+prop(
+    "C03", level="proof", trusted_base=TB_E1, selftest=["algorithms"],
+    rules=[main_e1, wf_main, e1b.rule_projection_pairs],
+    explanation=(
+        "Gauge obligations of the E1 certificate: the anti-Hermitian part of the interpretation of U' is V, S[V] = 0 "
+        "(V has only an `offdiagonal` branch), W is Hermitian; together with the well-founded (acyclic same-order) "
+        "dependency graph the DSL system has exactly one solution, which therefore is the least-action solution. "
+        "The comparison against an independent reference solver is a runtime oracle and is not performed."),
+)
+
+prop(
+    "C04", level="proof", trusted_base=TB_E1, selftest=["algorithms"],
+    rules=[main_e1, e1b.rule_scope_flags, e1b.rule_projection_pairs],
+    explanation=(
+        "Decided through its structural cause only: H_tilde = S[U†HU] with U unitary and R[U†HU] = 0 (E1 obligations "
+        "for H_tilde, B, unitarity), and full diagonalisation keeps exactly the degenerate pairs (to_keep = equal_eigs). "
+        "Spectral agreement of the truncation follows mathematically; the eigenvalue comparison itself is numerical "
+        "and is not performed."),
+)
+
+prop(
+    "C05", level="other", selftest=["algorithms"],
+    rules=[nh_e1, wf_nh, e1b.rule_scope_flags],
+    explanation=(
+        "E1 certificate of algorithms.py::nonhermitian (atoms H_0, H'_S, H'_R, U', U_inv'; rules U_inv U = U U_inv = 1, "
+        "gauge S[U_inv'] = S[U']): inverse relations, gauge, Sylvester equation, elimination, B and H_tilde are "
+        "discharged; the obligation X[diagonal] fails with residual [H_0, U'_S] (known finding K1), so the level is "
+        "rule conformance with one recorded defect, not a proof. Coincidence with the Hermitian mode on Hermitian "
+        "input is a two-run value comparison and is not decided."),
+)
+
+prop(
+    "C06", level="other", selftest=["linalg", "block_diagonalization"],
+    rules=[e8.rule_implicit_wiring, e6.rule_projector, e6.rule_base_state, e6.rule_projector_call_sites,
+           e7.rule_direct_solver, e7.rule_greens_function, e7.rule_diagonal_solver],
+    explanation=(
+        "Only structural necessary conditions are decided (numerical equality of the implicit and explicit paths is "
+        "not): the implicit block is Q.H.Q with one and the same oblique projector Q = 1 - R L† on both sides; "
+        "LinearOperator dispatch is consistent between block_diagonalize, series_computation and the generated evals; "
+        "both orientations of the direct solver project before and after and carry the right sign / transpose / "
+        "conjugated kernels; the Green's function projects, zeroes pivots and re-projects; Q's matvec, adjoint action, "
+        "adjoint, conjugate and transpose denote those of the dense matrix; the base-class state the installed SciPy "
+        "reads is initialised."),
+)
+
+prop(
+    "C08", level="other", selftest=["number_ordered_form"],
+    rules=[e10.rule_operator_order, e10.rule_fermion_crossing, e10.rule_shift_table, e10.rule_linear_structure],
+    explanation=(
+        "Necessary conditions of faithfulness decided from number_ordered_form.py: (i) the order in which __mul__ "
+        "applies the right operand's creation / annihilation operators equals the order as_expr denotes (extracted and "
+        "compared, not fixed); (iv) the fermionic crossing sets of _multiply_op are the ones implied by that order; "
+        "(ii) per syntactic path of the boson/ladder branch, the shift applied to the old coefficient and to the newly "
+        "created number factors equals the table that follows from a f(N) = f(N+1) a and a a† = N+1; _multiply_expr's "
+        "replacement table; (iii) adjoint / add / neg / sub structure. Not decided: from_expr on arbitrary expression "
+        "trees, non-integer powers, simplification."),
+)
+
+prop(
+    "C09", level="translation_validation", selftest=["algorithm_parsing"],
+    rules=[e9.rule_translation, wf_all, e2.rule_adjoint_fill],
+    explanation=(
+        "The repository's own _parse_algorithm is queried (subprocess, tree under analysis) for the generated "
+        "series_eval ASTs of `main`, `nonhermitian` and the documented example; each is interpreted abstractly per "
+        "index class {diagonal, upper, lower} x {offdiag given, not} x flag combination into a linear combination of "
+        "term references and compared with a reference translation made by an independent reader of the documented "
+        "grammar. Deletions are only checked against two safety facts (never an input, never an output). The claim "
+        "over all programs of the grammar is not decided; the documented example fails (known finding K2)."),
+)
+
+prop(
+    "C10", level="other", selftest=["series", "block_diagonalization"],
+    rules=[e4.rule_no_inplace_mutation, e4.rule_closure_state, e3.rule_memo_owner, e3.rule_typestate],
+    explanation=(
+        "Structural cause of history independence: evals are pure and the memo is disciplined. Flow-sensitive "
+        "freshness analysis over every function of the evaluation modules (in-place sinks: augmented assignment, item "
+        "stores, mutating methods, out= / overwrite_* keywords) shows no in-place write reaches caller data, cached "
+        "elements or returned values; functions that mutate a parameter only receive package-owned copies; the memo "
+        "`_data` is touched only by its owner methods and initialised from a copy; closures that write captured state "
+        "equal a reasoned table. The enumeration of request schedules itself is not performed."),
+)
+
+prop(
+    "C11", level="other", selftest=["series"],
+    rules=[e3.rule_typestate, e3.rule_memo_owner, e4.rule_closure_state, e7.rule_shared_eigenvalue_check],
+    explanation=(
+        "Typestate of the in-flight marker on the control-flow graph (with exceptional edges) of the one function that "
+        "owns it: from the store of PENDING every path to a normal or exceptional exit passes a store of the result or "
+        "a removal of the key; handlers jointly cover BaseException and re-raise; the eval call is guarded by the "
+        "absence test; a PENDING hit raises RuntimeError before any value is copied. No closure writes shared state "
+        "before a callback (closure-state table; the checked-pairs memo is written only after the check passed)."),
+)
+
+prop(
+    "C12", level="other", selftest=["series", "block_diagonalization"],
+    rules=[e2b.rule_definition_time_lazy, e2b.rule_order_preserving_evals, e2.rule_product_by_order, wf_all,
+           e3.rule_typestate, tv_shipped],
+    explanation=(
+        "Dependency cone decided structurally: definition-time code subscripts a BlockSeries only at the zeroth order; "
+        "every hand-written eval closure loads other series at its own orders (or a guarded lower one); "
+        "product_by_order enumerates exactly the box [0, n_k] per component with complementary orders and requests a "
+        "factor only if both index tuples are present; the DSL recursions are well-founded; an element is evaluated "
+        "only when absent from the memo; generated code never deletes an input term."),
+)
+
+prop(
+    "C13", level="other", selftest=["series", "block_diagonalization"],
+    rules=[e2.rule_product_by_order, wf_all, e2b.rule_key_normalisation, e2b.rule_order_preserving_evals],
+    explanation=(
+        "Narrow claim: order components are handled uniformly and split exactly (product_by_order rules), every DSL "
+        "summand is a rational multiple of exactly one series/product reference under linear scope functions (element n "
+        "is homogeneous of degree n), list / symbolic keys are normalised so that the k-th perturbation maps to the "
+        "k-th unit tuple and the tuple is built from the same `symbols` sequence that names the dimensions. The "
+        "relations between outputs of related calls are not evaluated."),
+)
+
+prop(
+    "C14", level="other", selftest=["block_diagonalization"],
+    rules=[e6.rule_projector_call_sites, e2b.rule_taylor, e2b.rule_order_preserving_evals, e2b.rule_key_normalisation,
+           e5.rule_total_callbacks, e2.rule_adjoint_fill],
+    explanation=(
+        "Narrow claim: operator_to_BlockSeries returns L_i† A R_j (projector families, argument order of every "
+        "ComplementProjector construction, Hermitian fill), the Taylor recurrence of symbolic input is consistent "
+        "(element n = derivative / n!), normalisation layers pass orders through unchanged, keys are normalised "
+        "position-wise, every eval is total over the documented value types. Equality of results across formats is a "
+        "multi-run numerical relation and is not decided."),
+)
+
+prop(
+    "C16", level="other", selftest=["block_diagonalization", "linalg", "second_quantization"],
+    rules=[e7.rule_diagonal_solver, e7.rule_shared_eigenvalue_check, e7.rule_direct_solver, e7.rule_greens_function,
+           e7.rule_solve_scalar, e6.rule_projector],
+    explanation=(
+        "Sibling cross-check of the solver implementations against the contract H0_i T - T H0_j = Y: orientation "
+        "E_i[row] - E_j[col], positive sign and zero-guard of each of the five branches of the diagonal solver; sign / "
+        "transpose / conjugated-kernel pairing and projection before and after in both orientations of the direct "
+        "solver; must-pass-through of the kernel projector and pivot zeroing in direct_greens_function; mirror-image "
+        "shifts and sign-invariant denominator of the second-quantised scalar solver. Not decided: KPM accuracy."),
+)
+
+prop(
+    "C17", level="proof", selftest=["linalg"],
+    trusted_base=[
+        "the denotation evaluator sv/linden.py (words over R, L with decorations *, T, H)",
+        "SciPy's documented contract: _matvec/_matmat compute A x, _rmatvec/_rmatmat compute A^H x, _adjoint/_transpose return A^H / A^T",
+        "the source of the installed scipy/sparse/linalg/_interface.py is what runs",
+    ],
+    rules=[e6.rule_projector, e6.rule_base_state, e6.rule_projector_call_sites],
+    explanation=(
+        "With self = P = 1 - R L† every method of ComplementProjector is interpreted abstractly: _apply denotes P v, "
+        "_apply_left denotes P† v, the objects built by _adjoint / conjugate / _transpose (both L = R and L != R) "
+        "denote P†, P*, Pᵀ, every cached cross-link stores the operation its attribute names; the instance attributes "
+        "the installed SciPy's LinearOperator reads are initialised by __init__; every construction site passes "
+        "(right, left). One obligation per (method, mode) / cache store / base-class attribute."),
+)
+
+prop(
+    "C18", level="other", selftest=["series"],
+    rules=[e2.rule_product_by_order, e2.rule_cauchy_wiring, e2.rule_adjoint_fill, main_e1],
+    explanation=(
+        "product_by_order: order box, complementary orders, index wiring (start, middle, *o1) / (middle, end, *o2), "
+        "presence test dominating every load, zero-skip, multiplicity table of the Hermitian half-sum, operator "
+        "application order with the `one` sentinel filtered; cauchy_dot_product: left association over all factors "
+        "with the same operator and the Hermitian shortcut only on the full product, shape checks; and (E1) every "
+        "product declared hermitian in the shipped algorithms has mutually adjoint factors."),
+)
+
+prop(
+    "C19", level="other", selftest=["series"],
+    rules=[e2b.rule_check_finite, e3.rule_typestate, wf_all],
+    explanation=(
+        "numpy equivalence is by construction (the code indexes a real numpy trial array with the user's expression); "
+        "decided clauses: _check_finite rejects, for every member of the declared OneItem union, negative and "
+        "unbounded order items with IndexError and accepts the valid ones (interpreted on representatives), both "
+        "validators dominate index resolution and evaluation, at most one evaluation while cached, a PENDING hit "
+        "raises RuntimeError, the shipped recursions are well-founded."),
+)
+
+prop(
+    "C20", level="other", selftest=["block_diagonalization"],
+    rules=[e5.rule_guards, e5.rule_h0_block_diagonal, e5.rule_guard_dominance, e5.rule_symbolic_hermiticity,
+           e5.rule_total_callbacks, e7.rule_shared_eigenvalue_check, e7.rule_diagonal_solver],
+    explanation=(
+        "Each rejection the property lists is located as a raise whose path condition has exactly the required truth "
+        "table over canonical atoms (robust to De-Morgan / nesting / early-return rewrites) and that precedes the "
+        "construction of the computation or the first use of the ill-defined quantity; the shared-eigenvalue check "
+        "compares all pairs, precedes every division and is memoised only after passing; every reciprocal of an energy "
+        "difference reachable with index[0] == index[1] is guarded (finiteness); every eval / solver / mask callback "
+        "ends in `return <value>` or `raise` on all paths."),
+)
+
+NOT_APPLICABLE = {
+    "C07": "relates matrix elements between Fock states of two executions (operator-valued vs truncated matrices) at "
+           "runtime sympy values; no clause has a static form that is not already claimed elsewhere (operator algebra: "
+           "C08, operator Sylvester identity: C16, mask complementarity: C01, eval totality: C20)",
+    "C15": "every clause relates the outputs of two runs on transformed inputs (relabelling, rotation, conjugation, "
+           "shift, scaling, direct sum); the position-dependent constructs it worries about are decided as parts of "
+           "C01/C02 (mode analysis of commuting_blocks[index[0]], adjoint fills), but no clause of C15 itself is visible "
+           "in the shape of the code without becoming a proxy",
+}
